@@ -883,7 +883,6 @@ func (w *World) staticReach(fn *ssa.Function) map[*ssa.Function]bool {
 	return seen
 }
 
-
 // sameLocalField: a and b are two loads of the same field of the same local struct variable that
 // is never written field-wise (e.g. a value receiver read twice: `if c.width <= 0 {...}; for ... += c.width`).
 func sameLocalField(a, b ssa.Value) bool {
